@@ -1,4 +1,4 @@
 CONSTANTS N = 2
-K = 3
+K = 4
 SPECIFICATION Spec
 INVARIANT EvenRank
